@@ -102,7 +102,7 @@ Proof.
   destruct o as [b m|b ty cl ho na da|b| |b|b e|b es|b i e|b e|b i|b i|b l s e|b s e]; cbn in P; cbn [mem_step].
   - eexists. split; [reflexivity|]. cbn. apply sp_create; [assumption|].
     unfold created_meta, mem_create_meta. cbn. repeat split.
-    intro T. destruct (m_name m) as [n|]; [|discriminate]. cbn in T. now rewrite T.
+    intro T. rewrite T. destruct (m_name m) as [n|]; [reflexivity|discriminate].
   - destruct P as [E [P1 [P2 [P3 [P4 [P5 _]]]]]].
     destruct (aget b c) as [[m es]|] eqn:G; [|congruence].
     eexists. split; [reflexivity|]. cbn. rewrite update_meta_guard by assumption. now apply sp_update.
